@@ -93,7 +93,11 @@ EXTRA = {
     "C18": " Has/Get of every path of the alphabet are compared with the reference lookup before and after Set (reads must not change the document), SetAll equals Set, Copy/AsMap show the same content, and document.Encode (what Insert does) must leave the document canonical and decode to it.",
     "C09": " IterateDocs (the exported engine under ForEach/Count) must visit exactly the FindAll sequence as well; a third of the histories start from 13-40 documents over a tiny value domain, so that FindFirst/ForEach identity is checked among many ties and beyond a dozen results.",
     "C02": " A string-twins part stores strings with NUL and 0xFF bytes right after shared prefixes in an indexed and an unindexed collection and queries both with anchored Like patterns over stored prefixes, comparisons and pairs around stored strings.",
-    "C07": " A snapshot-readers part runs one writer issuing bulk Updates over 257-1100 documents against readers that export, scan and index-scan the collection: every single ExportCollection / FindAll result must show one generation for all documents.",
+    "C11": " Half of the round trips run with an index on a nested path (index maintenance reads the path on every written document, also where a scalar sits in its way); one read goes through a Contains criterion.",
+    "C19": " A big-round-trip part exports a collection of 1025-3100 documents, drops it and imports the file again under the same and under a second name.",
+    "C03": " The bulk operation is sometimes run first with one store call failing (it must report the failure and touch nothing), and single documents are rewritten through ReplaceById / Save before it.",
+    "C01": " The raw key space is audited after every DropCollection / DropIndex (what a drop leaves behind only turns into wrong query results once the same name, index and ids are used again).",
+    "C07": " A fresh-ids part lets 2-8 goroutines insert batches of documents without _id at the same moment (every assigned id valid and unique, the collection holds exactly the acknowledged documents). A snapshot-readers part runs one writer issuing bulk Updates over 257-1100 documents against readers that export, scan and index-scan the collection: every single ExportCollection / FindAll result must show one generation for all documents.",
     "C20": " A document-API part drives Set / SetAll / Get / Has / Copy / AsMap / Fields / NewDocumentOf / Unmarshal / Encode with reflection-built Go values (including structs embedding unexported types) for panics.",
     "C04": " Count without criteria (answered from the collection metadata, with skip) is among the operations under fault; the ghost probe also counts with a skip.",
     "C12": " Caller-supplied ids include the all-zero and all-F UUIDs; id-less documents of a batch built from one Go map must receive distinct ids.",
